@@ -114,7 +114,8 @@ Definition leaf_post_raw (c : config) (l : leaf) (s : astate) : list astate :=
       | _ => [] end
   | LZXZXZ =>
       match wd s with
-      | W1 | WAny => cond_set (zx_model c) set_sqn [rewrites (set_blocks D0 false false false s)]
+      (* emits RZ (U1 when only U1 is native) and SX (RX when only RX is native), whatever the predicate said *)
+      | W1 | WAny => cond_set (zx_native c) set_sqn [rewrites (set_blocks D0 false false false s)]
       | _ => [] end
   | LGreedyPlace | LSabreLayout | LPamLayout => [remaps (set_plid false s)]
   | LSabreRoute =>
